@@ -164,6 +164,9 @@ class EvalSeams:
                 if (f["dir"] == ">" and v > f["theta"]) or (f["dir"] == "<" and v < f["theta"]):
                     seams.fired.append({"kind": "region", "eval": seams.eval_no, "in_ls": seams.in_ls})
                     raise make_exc(f["exc"], f"region {f['param']}{f['dir']}{f['theta']}")
+            if f and f["kind"] == "post_ls" and not seams.in_ls and seams.eval_no > 0 and not seams.fired:
+                seams.fired.append({"kind": "post_ls", "eval": seams.eval_no})
+                raise make_exc(f["exc"], "re-evaluation inside create_result")
             seams._site("group")
             return orig_calc(group, parameters)
 
